@@ -4,8 +4,8 @@
 package main
 
 import (
-	"net/url"
 	"fmt"
+	"net/url"
 	"reflect"
 	"strings"
 	"time"
